@@ -357,3 +357,34 @@ func vh_C05_L6_emitted_sack_truth() {
 
 // C05.L6b: SACK wire format with gap blocks and duplicates together (same obligation as vh_C12_L1).
 func vh_C05_L6_sack_wire_roundtrip() { vh_C12_L1_roundtrip_sack_fwd() }
+
+// C05.S1 (one step from an arbitrary state): clearTSNRange on an arbitrary bitmap. Every
+// bit whose ring position belongs to a TSN of [start, start+n-1] (n = 1..192, any start,
+// also across the 2^32 wrap) is cleared and every other bit keeps its value.
+func vh_C05_step_clear_range() {
+	q := newReceivePayloadQueue(192)
+	vassert(len(q.tsnBitmask) == 4, "four words")
+	var before [4]uint64
+	for i := range q.tsnBitmask {
+		w := nondetU64()
+		q.tsnBitmask[i], before[i] = w, w
+	}
+	q.chunkSize = 256 // enough for any number of bits cleared
+	start := nondetU32()
+	n := 1 + uint32(nondetU8())%192
+	q.clearTSNRange(start, start+n-1)
+	probe := nondetU32()
+	idx, bit := (probe/64)%4, probe%64
+	was := before[idx] >> bit & 1
+	now := q.tsnBitmask[idx] >> bit & 1
+	if (probe-start)%256 < n {
+		vassert(now == 0, "every TSN of the range is cleared (also when the range crosses 2^32)")
+	} else {
+		vassert(now == was, "no bit outside the range changes")
+	}
+	// (that the count of held TSNs follows the bits cleared is an identity between population
+	// counts of symbolic words which no available solver decides in 30 s; it is checked on the
+	// states reachable from init by vRPQInvariant in the BMC harnesses)
+	vobserve("n", uint64(n))
+	vcover("end")
+}
